@@ -243,8 +243,9 @@ pub mod verif {
     pub use crate::intrusive_pairing_heap::{HeapNode, PairingHeap};
     pub use crate::noop_lock::NoopLock as NoopLockV;
 
-    /// One entry of a wait queue: node address, poll-state code, the data
-    /// pointer of the stored waker (0 if none) and a primitive specific value.
+    /// One entry of a wait queue: node address, poll-state code, an identity
+    /// code of the stored waker (0 if none; data pointer plus a tag derived
+    /// from the vtable address) and a primitive specific value.
     #[derive(Debug, Clone, Copy, PartialEq, Eq)]
     pub struct VerifNode {
         pub addr: usize,
@@ -255,7 +256,13 @@ pub mod verif {
 
     pub fn waker_data(w: &Option<core::task::Waker>) -> usize {
         match w {
-            Some(w) => w.data() as usize,
+            // Two wakers are the same waker only if data pointer AND vtable
+            // agree: fold the vtable address into the reported identity.
+            Some(w) => (w.data() as usize).wrapping_add(
+                ((w.vtable() as *const core::task::RawWakerVTable as usize)
+                    & 0xffff_ffff)
+                    << 16,
+            ),
             None => 0,
         }
     }
